@@ -430,3 +430,20 @@ int main(){ for (int n = std::max(1, %d - 2); n <= %d + 3; ++n) { arr_real h = %
       std::printf("order %%d: h[%%d] = %%.6g but h[%%d] = %%.6g\\n", n, k, h[k], h.size() - 1 - k, h[h.size() - 1 - k]); return 1; } }
   return 0; }
 ''' % (n, n, call)
+
+
+@adapter(r'create_r?fft_plan\(body\)/|_get_r?fft_plan/')
+def plan_cache_history(o):
+    """transform results must not depend on which lengths were requested before (C10): every length 2..130 is transformed
+    right after its neighbours and compared with the defining sum"""
+    real = 'rfft' in o['name']
+    return HDR + '''
+static double err(const arr_cmplx& X, const %s& x) { const int n = x.size(); double e = 0, s = 0;
+  for (int k = 0; k < n; ++k) { cmplx_t a{0, 0}; for (int m = 0; m < n; ++m) { double ph = -2 * pi * double((long)m * k %% n) / n; a += cmplx_t{std::cos(ph), std::sin(ph)} * x[m]; }
+    e += abs2(X[k] - a); s += abs2(a); } return std::sqrt(e / (s + 1e-300)); }
+int main() { for (int n = 2; n <= 130; ++n) for (int d = -1; d <= 1; d += 2) { const int n2 = n + d; if (n2 < 1) continue;
+    %s x(n), y(n2); for (int i = 0; i < n; ++i) x[i] = std::sin(0.7 * i) + 0.1 * i; for (int i = 0; i < n2; ++i) y[i] = std::cos(0.3 * i);
+    try { (void)fft(y); arr_cmplx X = fft(x); if (X.size() != n || err(X, x) > 1e-9) { std::printf("fft of %%d samples after a transform of %%d samples: relative error %%g\\n", n, n2, err(X, x)); return 1; } }
+    catch (const std::exception& e) { std::printf("fft of %%d samples after a transform of %%d samples throws: %%s\\n", n, n2, e.what()); return 1; } }
+  return 0; }
+''' % (('arr_real', 'arr_real') if real else ('arr_cmplx', 'arr_cmplx'))
